@@ -117,7 +117,7 @@ def run(prop, tier, seed):
         storm_plan = dict(calls=[], storm=dict(workers=16, generates=200 if tier == "quick" else 1500, msgs=light[:400]))
         storm = None
         hangs = []
-        for attempt in range(3):
+        for attempt in range(3 if not verdict.violations else 0):     # a daemon that a single message kills needs no concurrent phase
             evs_s, rc_s, err_s = apifamily.run_apidrv(storm_plan, wd, "storm%d" % attempt, timeout=1500)
             st = [e for e in evs_s if e["ev"] == "Storm"]
             if rc_s == 0 and st:
